@@ -180,12 +180,12 @@ theorem Wf.label_none {t : TableSpec} (hL : t.hasLabelRow = false) (hm : t.outpu
     | none => rfl
     | some x => rw [hl] at hL; simp at hL
 
-theorem outputHeader_single {P : Plane} {r : Rect} {w h : Nat} {ivp : Bool} (hw : w = 1) :
-    outputHeader P r w h ivp = outputHeaderSingle P r h ivp := by
+theorem outputHeader_single {P : Plane} {r : Rect} {w h : Nat} (hw : w = 1) :
+    outputHeader P r w h = outputHeaderSingle P r h := by
   subst hw; rfl
 
-theorem outputHeader_multi {P : Plane} {r : Rect} {w h : Nat} {ivp : Bool} (hw : 1 < w) :
-    outputHeader P r w h ivp = outputHeaderMulti P r h ivp := by
+theorem outputHeader_multi {P : Plane} {r : Rect} {w h : Nat} (hw : 1 < w) :
+    outputHeader P r w h = outputHeaderMulti P r h := by
   match w, hw with
   | w + 2, _ => rfl
 
@@ -194,11 +194,121 @@ theorem eq_singleton {α : Type} : ∀ (l : List α) (h0 : 0 < l.length), l.leng
   | [], h0, _ => by simp at h0
   | _ :: _ :: _, _, h => by simp at h
 
+/-! ## Region comparisons on one row, texts of an allowed-values lane -/
+
+theorem equalRegionsLoop_all {P : Plane} {a : Nat} : ∀ (cs : List (Nat × Nat)),
+    (∀ p ∈ cs, P.regionNumber p.1 p.2 = ok a) → P.equalRegionsLoop a cs = ok true
+  | [], _ => rfl
+  | (row, col) :: rest, h => by
+    have h0 := h (row, col) (by simp)
+    simp only [Plane.equalRegionsLoop, h0]
+    simpa using equalRegionsLoop_all rest (fun p hp => h p (by simp [hp]))
+
+theorem coords_row (left row m : Nat) :
+    Plane.coords ⟨left, row, left + m, row + 1⟩ = (List.range' left m).map (fun col => (row, col)) := by
+  simp [Plane.coords, List.range'_succ]
+
+/-- a row segment that is one region -/
+theorem equalRegions_row_true {P : Plane} {row left m a : Nat} (hm : 0 < m)
+    (h : ∀ j, j < m → P.regionNumber row (left + j) = ok a) :
+    P.equalRegions ⟨left, row, left + m, row + 1⟩ = ok true := by
+  have h0 := h 0 hm
+  simp only [Nat.add_zero] at h0
+  simp only [Plane.equalRegions, h0, coords_row]
+  apply equalRegionsLoop_all
+  intro p hp
+  simp only [List.mem_map, List.mem_range'_1] at hp
+  obtain ⟨c, ⟨hc1, hc2⟩, rfl⟩ := hp
+  have := h (c - left) (by omega)
+  have e : left + (c - left) = c := by omega
+  rw [e] at this
+  exact this
+
+/-- a row segment whose first two cells are different regions -/
+theorem equalRegions_row_false {P : Plane} {row left m a b : Nat} (hm : 1 < m)
+    (h0 : P.regionNumber row left = ok a) (h1 : P.regionNumber row (left + 1) = ok b) (hab : a ≠ b) :
+    P.equalRegions ⟨left, row, left + m, row + 1⟩ = ok false := by
+  obtain ⟨m', rfl⟩ : ∃ m', m = m' + 2 := ⟨m - 2, by omega⟩
+  have hba : ¬ b = a := fun h => hab h.symm
+  simp [Plane.equalRegions, h0, coords_row, List.range'_succ, Plane.equalRegionsLoop, h1, hba]
+
+theorem valuesTexts_ok {P : Plane} {above row left right : Nat} (texts : List Text)
+    (hlen : right = left + texts.length)
+    (h : ∀ j (hj : j < texts.length), P.allowedValuesText above row (left + j) = ok texts[j]) :
+    P.valuesTexts above row left right = ok texts := by
+  unfold Plane.valuesTexts
+  exact mapM_range'_ok' texts left (right - left) (by omega) h
+
+/-- the allowed-values cell is a region of its own: its text is read -/
+theorem allowedValuesText_ne {P : Plane} {above row col a b : Nat} {x : Text}
+    (h1 : P.regionNumber row col = ok a) (h2 : P.regionNumber above col = ok b) (hab : a ≠ b)
+    (h3 : P.regionText row col = ok x) : P.allowedValuesText above row col = ok x := by
+  simp [Plane.allowedValuesText, h1, h2, hab, h3]
+
+/-- the allowed-values cell continues the cell above it: no allowed values -/
+theorem allowedValuesText_eq {P : Plane} {above row col a : Nat}
+    (h1 : P.regionNumber row col = ok a) (h2 : P.regionNumber above col = ok a) :
+    P.allowedValuesText above row col = ok [] := by
+  simp [Plane.allowedValuesText, h1, h2]
+
 /-! ## The six cases -/
 
 section Cases
 variable (ids : Ids) (d : Decor) (t : TableSpec) (nm : Option Text) (hw : t.Wf) (hids : ids.Ok t.inputs.length t.outputs.length)
 include hw hids
+
+/-- the input values of a header whose last two rows are `above` (input expressions) and the
+allowed-values lane -/
+theorem ivals_of_rows {hdr : List (List Cell)} {above last : Nat} {ra : List Cell}
+    (ha : (bodyOver ids t hdr nm).rows[above]? = some ra)
+    (hra : ∀ x, x < t.exprs.length → ra[x]? = some (.region (ids.expr x) t.exprs[x]!))
+    (hl : (bodyOver ids t hdr nm).rows[last]? = some (valuesRow ids d t)) :
+    (bodyOver ids t hdr nm).valuesTexts above last 0 t.inputs.length = ok (t.ivals d) := by
+  apply valuesTexts_ok (t.ivals d) (by simp [len_ivals])
+  intro j hj
+  rw [Nat.zero_add]
+  have hj' : j < t.exprs.length := by rw [len_exprs, ← len_ivals d t]; exact hj
+  have hjn : j < t.inputs.length := by rw [← len_exprs]; exact hj'
+  exact allowedValuesText_ne (regionNumber_eq hl (valuesRow_in ids d t hj))
+    (regionNumber_eq ha (hra j hj')) (fun h => hids.expr_inVal j hjn h.symm)
+    (regionText_eq hl (valuesRow_in ids d t hj))
+
+/-- the output values of a header whose last two rows are the component names and the
+allowed-values lane -/
+theorem ovals_of_rows {hdr : List (List Cell)} {above last : Nat} (hm : t.outputs.length ≠ 1)
+    (ha : (bodyOver ids t hdr nm).rows[above]? = some (nameRow ids t))
+    (hl : (bodyOver ids t hdr nm).rows[last]? = some (valuesRow ids d t)) :
+    (bodyOver ids t hdr nm).valuesTexts above last (t.inputs.length + 1)
+      (t.inputs.length + 1 + t.outputs.length) = ok (t.ovals d) := by
+  have hm2 : 1 < t.outputs.length := by have := hw.outputs_pos; omega
+  apply valuesTexts_ok (t.ovals d) (by rw [len_ovals])
+  intro j hj
+  have hj' : j < t.names.length := by rw [len_names, ← len_ovals d t]; exact hj
+  have hjm : j < t.outputs.length := by rw [← len_names]; exact hj'
+  exact allowedValuesText_ne (regionNumber_eq hl (valuesRow_out ids d t hj))
+    (regionNumber_eq ha (nameRow_out_multi ids t hm hj'))
+    (fun h => hids.comp_outVal hm2 j hjm h.symm)
+    (regionText_eq hl (valuesRow_out ids d t hj))
+
+/-- the row of the component names (several outputs) is not one region -/
+theorem names_not_one_region {hdr : List (List Cell)} {row : Nat} (hm : t.outputs.length ≠ 1)
+    (hr : (bodyOver ids t hdr nm).rows[row]? = some (nameRow ids t)) :
+    (bodyOver ids t hdr nm).equalRegions
+      ⟨t.inputs.length + 1, row, t.inputs.length + 1 + t.outputs.length, row + 1⟩ = ok false := by
+  have hm2 : 1 < t.outputs.length := by have := hw.outputs_pos; omega
+  have h0 : 0 < t.names.length := by rw [len_names]; omega
+  have h1 : 1 < t.names.length := by rw [len_names]; omega
+  have c0 := regionNumber_eq hr (nameRow_out_multi ids t hm h0)
+  have c1 := regionNumber_eq hr (nameRow_out_multi ids t hm h1)
+  simp only [Nat.add_zero] at c0
+  exact equalRegions_row_false hm2 c0 c1 (hids.comp_distinct hm2)
+
+/-- the row of the output label is one region -/
+theorem label_one_region {hdr : List (List Cell)} {row : Nat}
+    (hr : (bodyOver ids t hdr nm).rows[row]? = some (labelRow ids t)) :
+    (bodyOver ids t hdr nm).equalRegions
+      ⟨t.inputs.length + 1, row, t.inputs.length + 1 + t.outputs.length, row + 1⟩ = ok true :=
+  equalRegions_row_true hw.outputs_pos (fun _ hj => regionNumber_eq hr (labelRow_out ids t hj))
 
 theorem horz_bodyH : recognizeHorizontal ⟨nm, bodyH ids d t⟩ = ok (horzOf d t) := by
   have hP : (⟨nm, bodyH ids d t⟩ : Plane) = bodyOver ids t (headerOf ids d t) nm := rfl
@@ -208,105 +318,49 @@ theorem horz_bodyH : recognizeHorizontal ⟨nm, bodyH ids d t⟩ = ok (horzOf d 
   obtain ⟨n', hn'⟩ : ∃ n', t.inputs.length = n' + 1 := ⟨t.inputs.length - 1, by omega⟩
   have hx0 : 0 < t.exprs.length := by rw [len_exprs]; exact hn
   have hv0 : 0 < (t.ivals d).length := by rw [len_ivals]; exact hn
-  apply recognizeHorizontal_bodyOver d nm hw (headerOk ids d t)
-  · -- are input values present?
-    cases hL : t.hasLabelRow <;> cases hV : t.hasValues
-    · have hhdr : headerOf ids d t = [nameRow ids t] := by simp [headerOf, hL, hV]
-      rw [hhdr]; rfl
-    · have hhdr : headerOf ids d t = [nameRow ids t, valuesRow ids d t] := by simp [headerOf, hL, hV]
-      rw [hhdr]
-      have r0 : (bodyOver ids t [nameRow ids t, valuesRow ids d t] nm).rows[0]? = some (nameRow ids t) := by
-        rw [bodyOver_hdr _ _ _ _ (by simp)]; rfl
-      have r1 : (bodyOver ids t [nameRow ids t, valuesRow ids d t] nm).rows[0 + 1]? = some (valuesRow ids d t) := by
-        rw [bodyOver_hdr _ _ _ _ (by simp)]; rfl
+  have hh := headerOk ids d t
+  have hnameE : ∀ x, x < t.exprs.length →
+      (nameRow ids t)[x]? = some (.region (ids.expr x) t.exprs[x]!) := by
+    intro x hx; rw [nameRow_in ids t hx]; simp [hx]
+  unfold horzOf
+  cases hL : t.hasLabelRow <;> cases hV : t.hasValues
+  · -- one header row
+    have hhdr : headerOf ids d t = [nameRow ids t] := by simp [headerOf, hL, hV]
+    rw [hhdr] at hh ⊢
+    have r0 : (bodyOver ids t [nameRow ids t] nm).rows[0]? = some (nameRow ids t) := by
+      rw [bodyOver_hdr _ _ _ _ (by simp)]; rfl
+    refine recognizeHorizontal_bodyOver nm hw hh (vr := none) (ivp := false) rfl rfl rfl ?_
+    by_cases hm1 : t.outputs.length = 1
+    · rw [outputHeader_single hm1]
+      have hl := Wf.label_eq (hw.single hm1).1
+      simp [outputHeaderSingle, regionText_eq r0 (nameRow_out_single ids t hm1), hm1, ← hl]
+    · rw [outputHeader_multi (by omega)]
+      have hl := Wf.label_none hL hm1 hw
+      have hc : (bodyOver ids t [nameRow ids t] nm).rowTexts 0 (t.inputs.length + 1)
+          (t.inputs.length + 1 + t.outputs.length) = ok t.names :=
+        rowTexts_ok t.names ids.comp r0 (by rw [len_names])
+          (fun j hj => nameRow_out_multi ids t hm1 hj)
+      simp [outputHeaderMulti, hc, hm1, hl]
+  · -- names and values
+    have hhdr : headerOf ids d t = [nameRow ids t, valuesRow ids d t] := by simp [headerOf, hL, hV]
+    rw [hhdr] at hh ⊢
+    have r0 : (bodyOver ids t [nameRow ids t, valuesRow ids d t] nm).rows[0]? = some (nameRow ids t) := by
+      rw [bodyOver_hdr _ _ _ _ (by simp)]; rfl
+    have r1 : (bodyOver ids t [nameRow ids t, valuesRow ids d t] nm).rows[0 + 1]? = some (valuesRow ids d t) := by
+      rw [bodyOver_hdr _ _ _ _ (by simp)]; rfl
+    have ho0 : 0 < (t.ovals d).length := by rw [len_ovals]; exact hm
+    refine recognizeHorizontal_bodyOver nm hw hh (vr := some (0, 0 + 1)) (ivp := true) rfl ?_ ?_ ?_
+    · -- input values are present: the first column has two regions
       have e := equalRegions_col2 (regionNumber_eq r0 (nameRow_in ids t hx0))
         (regionNumber_eq r1 (valuesRow_in ids d t hv0))
       have hne : decide (ids.expr 0 = ids.inVal 0) = false := by simpa using hids.expr_inVal 0 hn
       rw [hne] at e
-      simp only [List.length_cons, List.length_nil, inputValuesPresent, Plane.equalRegionsInColumns,
-        hn', Nat.sub_zero, List.range'_succ, Plane.equalColumnsLoop]
+      simp only [valuesPresentIn, Plane.equalRegionsInColumns, hn', Nat.sub_zero, List.range'_succ,
+        Plane.equalColumnsLoop]
       simp only [Nat.zero_add] at e
       simp [e]
-    · have hhdr : headerOf ids d t = [labelRow ids t, nameRow ids t] := by simp [headerOf, hL, hV]
-      rw [hhdr]
-      have r0 : (bodyOver ids t [labelRow ids t, nameRow ids t] nm).rows[0]? = some (labelRow ids t) := by
-        rw [bodyOver_hdr _ _ _ _ (by simp)]; rfl
-      have r1 : (bodyOver ids t [labelRow ids t, nameRow ids t] nm).rows[0 + 1]? = some (nameRow ids t) := by
-        rw [bodyOver_hdr _ _ _ _ (by simp)]; rfl
-      have hall : (bodyOver ids t [labelRow ids t, nameRow ids t] nm).equalColumnsLoop
-          ⟨0, 0, t.inputs.length, 2⟩ (List.range' 0 (t.inputs.length - 0)) = ok true := by
-        apply equalColumnsLoop_true
-        intro x hx
-        have hx' : x < t.exprs.length := by
-          rw [len_exprs]; simp [List.mem_range'] at hx; omega
-        have e := equalRegions_col2 (regionNumber_eq r0 (labelRow_in ids t hx'))
-          (regionNumber_eq r1 (nameRow_in ids t hx'))
-        simpa using e
-      simp only [List.length_cons, List.length_nil, inputValuesPresent, Plane.equalRegionsInColumns]
-      simp only [Nat.zero_add] at hall ⊢
-      rw [hall]; rfl
-    · have hhdr : headerOf ids d t = [labelRow ids t, nameRow ids t, valuesRow ids d t] := by
-        simp [headerOf, hL, hV]
-      rw [hhdr]
-      have r1 : (bodyOver ids t [labelRow ids t, nameRow ids t, valuesRow ids d t] nm).rows[1]? =
-          some (nameRow ids t) := by
-        rw [bodyOver_hdr _ _ _ _ (by simp)]; rfl
-      have r2 : (bodyOver ids t [labelRow ids t, nameRow ids t, valuesRow ids d t] nm).rows[1 + 1]? =
-          some (valuesRow ids d t) := by
-        rw [bodyOver_hdr _ _ _ _ (by simp)]; rfl
-      have hall : (bodyOver ids t [labelRow ids t, nameRow ids t, valuesRow ids d t] nm).uniqueColumnsLoop
-          ⟨0, 1, t.inputs.length, 3⟩ (List.range' 0 (t.inputs.length - 0)) = ok true := by
-        apply uniqueColumnsLoop_true
-        intro x hx
-        have hx' : x < t.exprs.length := by
-          rw [len_exprs]; simp [List.mem_range'] at hx; omega
-        have hx'' : x < (t.ivals d).length := by rw [len_ivals, ← len_exprs]; exact hx'
-        have e := uniqueRegions_col2 (regionNumber_eq r1 (nameRow_in ids t hx'))
-          (regionNumber_eq r2 (valuesRow_in ids d t hx''))
-        have hne : decide (ids.expr x ≠ ids.inVal x) = true := by simpa using hids.expr_inVal x (by rw [← len_exprs]; exact hx')
-        rw [hne] at e
-        exact e
-      simp only [List.length_cons, List.length_nil, inputValuesPresent, Plane.uniqueRegionsInColumns,
-        Rect.incTop]
-      simp only [Nat.zero_add] at hall ⊢
-      rw [hall]; rfl
-  · -- the input values
-    intro hV
-    have hrow : (bodyOver ids t (headerOf ids d t) nm).rows[(headerOf ids d t).length - 1]? =
-        some (valuesRow ids d t) := by
-      rw [bodyOver_hdr _ _ _ _ (by simp [headerOf, hV])]
-      cases hL : t.hasLabelRow <;> simp [headerOf, hL, hV]
-    apply rowTexts_ok (t.ivals d) (fun j => ids.inVal j) hrow (by simp [len_ivals])
-    intro j hj
-    rw [Nat.zero_add]
-    exact valuesRow_in ids d t hj
-  · -- the output header
-    cases hL : t.hasLabelRow <;> cases hV : t.hasValues
-    · -- one header row
-      have hhdr : headerOf ids d t = [nameRow ids t] := by simp [headerOf, hL, hV]
-      rw [hhdr]
-      have r0 : (bodyOver ids t [nameRow ids t] nm).rows[0]? = some (nameRow ids t) := by
-        rw [bodyOver_hdr _ _ _ _ (by simp)]; rfl
-      by_cases hm1 : t.outputs.length = 1
-      · rw [outputHeader_single hm1]
-        have hl := Wf.label_eq (hw.single hm1).1
-        simp [outputHeaderSingle, regionText_eq r0 (nameRow_out_single ids t hm1), hm1, ← hl]
-      · rw [outputHeader_multi (by omega)]
-        have hl := Wf.label_none hL hm1 hw
-        have hc : (bodyOver ids t [nameRow ids t] nm).rowTexts 0 (t.inputs.length + 1)
-            (t.inputs.length + 1 + t.outputs.length) = ok t.names :=
-          rowTexts_ok t.names ids.comp r0 (by rw [len_names])
-            (fun j hj => nameRow_out_multi ids t hm1 hj)
-        simp [outputHeaderMulti, hc, hm1, hl]
-    · -- names and values
-      have hhdr : headerOf ids d t = [nameRow ids t, valuesRow ids d t] := by simp [headerOf, hL, hV]
-      rw [hhdr]
-      have r0 : (bodyOver ids t [nameRow ids t, valuesRow ids d t] nm).rows[0]? = some (nameRow ids t) := by
-        rw [bodyOver_hdr _ _ _ _ (by simp)]; rfl
-      have r1 : (bodyOver ids t [nameRow ids t, valuesRow ids d t] nm).rows[0 + 1]? = some (valuesRow ids d t) := by
-        rw [bodyOver_hdr _ _ _ _ (by simp)]; rfl
-      have ho0 : 0 < (t.ovals d).length := by rw [len_ovals]; exact hm
-      by_cases hm1 : t.outputs.length = 1
+    · exact ivals_of_rows ids d t nm hw hids r0 hnameE r1
+    · by_cases hm1 : t.outputs.length = 1
       · rw [outputHeader_single hm1]
         have hl := Wf.label_eq (hw.single hm1).1
         have e := equalRegions_col2 (regionNumber_eq r0 (nameRow_out_single ids t hm1))
@@ -320,7 +374,7 @@ theorem horz_bodyH : recognizeHorizontal ⟨nm, bodyH ids d t⟩ = ok (horzOf d 
         have t1 := regionText_eq r1 (valuesRow_out ids d t ho0)
         simp only [Nat.zero_add, Nat.add_zero] at t1
         simp only [outputHeaderSingle, List.length_cons, List.length_nil, Nat.zero_add, e',
-          regionText_eq r0 (nameRow_out_single ids t hm1), t1, Outcome.ok_bind, if_true]
+          regionText_eq r0 (nameRow_out_single ids t hm1), t1, Outcome.ok_bind]
         rw [hl, if_pos hm1]
         simp [← hov]
       · rw [outputHeader_multi (by omega)]
@@ -329,19 +383,32 @@ theorem horz_bodyH : recognizeHorizontal ⟨nm, bodyH ids d t⟩ = ok (horzOf d 
             (t.inputs.length + 1 + t.outputs.length) = ok t.names :=
           rowTexts_ok t.names ids.comp r0 (by rw [len_names])
             (fun j hj => nameRow_out_multi ids t hm1 hj)
-        have hvv : (bodyOver ids t [nameRow ids t, valuesRow ids d t] nm).rowTexts (0 + 1) (t.inputs.length + 1)
-            (t.inputs.length + 1 + t.outputs.length) = ok (t.ovals d) :=
-          rowTexts_ok (t.ovals d) ids.outVal r1 (by rw [len_ovals])
-            (fun j hj => valuesRow_out ids d t hj)
-        simp [outputHeaderMulti, hc, hvv, hm1, hl]
-    · -- label and names
-      have hhdr : headerOf ids d t = [labelRow ids t, nameRow ids t] := by simp [headerOf, hL, hV]
-      rw [hhdr]
-      have r0 : (bodyOver ids t [labelRow ids t, nameRow ids t] nm).rows[0]? = some (labelRow ids t) := by
-        rw [bodyOver_hdr _ _ _ _ (by simp)]; rfl
-      have r1 : (bodyOver ids t [labelRow ids t, nameRow ids t] nm).rows[0 + 1]? = some (nameRow ids t) := by
-        rw [bodyOver_hdr _ _ _ _ (by simp)]; rfl
-      obtain ⟨hm2, hls⟩ := Wf.labelRow_multi hL
+        have hvv := ovals_of_rows ids d t nm hw hids hm1 r0 r1
+        have hne := names_not_one_region ids t nm hw hids hm1 r0
+        simp only [Nat.zero_add] at hvv hne
+        simp [outputHeaderMulti, hne, hc, hvv, hm1, hl]
+  · -- label and names
+    have hhdr : headerOf ids d t = [labelRow ids t, nameRow ids t] := by simp [headerOf, hL, hV]
+    rw [hhdr] at hh ⊢
+    have r0 : (bodyOver ids t [labelRow ids t, nameRow ids t] nm).rows[0]? = some (labelRow ids t) := by
+      rw [bodyOver_hdr _ _ _ _ (by simp)]; rfl
+    have r1 : (bodyOver ids t [labelRow ids t, nameRow ids t] nm).rows[0 + 1]? = some (nameRow ids t) := by
+      rw [bodyOver_hdr _ _ _ _ (by simp)]; rfl
+    refine recognizeHorizontal_bodyOver nm hw hh (vr := some (0, 0 + 1)) (ivp := false) rfl ?_ ?_ ?_
+    · have hall : (bodyOver ids t [labelRow ids t, nameRow ids t] nm).equalColumnsLoop
+          ⟨0, 0, t.inputs.length, 2⟩ (List.range' 0 (t.inputs.length - 0)) = ok true := by
+        apply equalColumnsLoop_true
+        intro x hx
+        have hx' : x < t.exprs.length := by
+          rw [len_exprs]; simp [List.mem_range'] at hx; omega
+        have e := equalRegions_col2 (regionNumber_eq r0 (labelRow_in ids t hx'))
+          (regionNumber_eq r1 (nameRow_in ids t hx'))
+        simpa using e
+      simp only [valuesPresentIn, Plane.equalRegionsInColumns]
+      simp only [Nat.zero_add] at hall ⊢
+      rw [hall]; rfl
+    · rfl
+    · obtain ⟨hm2, hls⟩ := Wf.labelRow_multi hL
       have hm1 : t.outputs.length ≠ 1 := by omega
       rw [outputHeader_multi hm2]
       have hl := Wf.label_eq hls
@@ -351,21 +418,47 @@ theorem horz_bodyH : recognizeHorizontal ⟨nm, bodyH ids d t⟩ = ok (horzOf d 
           (fun j hj => nameRow_out_multi ids t hm1 hj)
       have tl := regionText_eq r0 (labelRow_out ids t hm)
       simp only [Nat.add_zero] at tl
-      simp [outputHeaderMulti, hc, tl, hm1, ← hl]
-    · -- label, names and values
-      have hhdr : headerOf ids d t = [labelRow ids t, nameRow ids t, valuesRow ids d t] := by
-        simp [headerOf, hL, hV]
-      rw [hhdr]
-      have r0 : (bodyOver ids t [labelRow ids t, nameRow ids t, valuesRow ids d t] nm).rows[0]? =
-          some (labelRow ids t) := by
-        rw [bodyOver_hdr _ _ _ _ (by simp)]; rfl
-      have r1 : (bodyOver ids t [labelRow ids t, nameRow ids t, valuesRow ids d t] nm).rows[0 + 1]? =
-          some (nameRow ids t) := by
-        rw [bodyOver_hdr _ _ _ _ (by simp)]; rfl
-      have r2 : (bodyOver ids t [labelRow ids t, nameRow ids t, valuesRow ids d t] nm).rows[0 + 2]? =
-          some (valuesRow ids d t) := by
-        rw [bodyOver_hdr _ _ _ _ (by simp)]; rfl
-      obtain ⟨hm2, hls⟩ := Wf.labelRow_multi hL
+      have heq := label_one_region ids t nm hw hids r0
+      simp only [Nat.zero_add] at heq hc
+      simp [outputHeaderMulti, heq, hc, tl, hm1, ← hl]
+  · -- label, names and values
+    have hhdr : headerOf ids d t = [labelRow ids t, nameRow ids t, valuesRow ids d t] := by
+      simp [headerOf, hL, hV]
+    rw [hhdr] at hh ⊢
+    have r0 : (bodyOver ids t [labelRow ids t, nameRow ids t, valuesRow ids d t] nm).rows[0]? =
+        some (labelRow ids t) := by
+      rw [bodyOver_hdr _ _ _ _ (by simp)]; rfl
+    have r1 : (bodyOver ids t [labelRow ids t, nameRow ids t, valuesRow ids d t] nm).rows[0 + 1]? =
+        some (nameRow ids t) := by
+      rw [bodyOver_hdr _ _ _ _ (by simp)]; rfl
+    have r2 : (bodyOver ids t [labelRow ids t, nameRow ids t, valuesRow ids d t] nm).rows[0 + 1 + 1]? =
+        some (valuesRow ids d t) := by
+      rw [bodyOver_hdr _ _ _ _ (by simp)]; rfl
+    refine recognizeHorizontal_bodyOver nm hw hh (vr := some (0 + 1, 0 + 2)) (ivp := true) ?_ ?_ ?_ ?_
+    · -- every input expression spans the two upper rows
+      have hall : (bodyOver ids t [labelRow ids t, nameRow ids t, valuesRow ids d t] nm).equalColumnsLoop
+          ⟨0, 0, t.inputs.length, 0 + 2⟩ (List.range' 0 (t.inputs.length - 0)) = ok true := by
+        apply equalColumnsLoop_true
+        intro x hx
+        have hx' : x < t.exprs.length := by
+          rw [len_exprs]; simp [List.mem_range'] at hx; omega
+        have e := equalRegions_col2 (regionNumber_eq r0 (labelRow_in ids t hx'))
+          (regionNumber_eq r1 (nameRow_in ids t hx'))
+        simpa using e
+      simp only [List.length_cons, List.length_nil, valuesRows, Plane.equalRegionsInColumns]
+      simp only [Nat.zero_add] at hall ⊢
+      rw [hall]; rfl
+    · -- input values are present: the first column has two regions in the lower rows
+      have e := equalRegions_col2 (regionNumber_eq r1 (nameRow_in ids t hx0))
+        (regionNumber_eq r2 (valuesRow_in ids d t hv0))
+      have hne : decide (ids.expr 0 = ids.inVal 0) = false := by simpa using hids.expr_inVal 0 hn
+      rw [hne] at e
+      simp only [valuesPresentIn, Plane.equalRegionsInColumns, hn', Nat.sub_zero, List.range'_succ,
+        Plane.equalColumnsLoop]
+      simp only [Nat.zero_add] at e
+      simp [e]
+    · exact ivals_of_rows ids d t nm hw hids r1 hnameE r2
+    · obtain ⟨hm2, hls⟩ := Wf.labelRow_multi hL
       have hm1 : t.outputs.length ≠ 1 := by omega
       rw [outputHeader_multi hm2]
       have hl := Wf.label_eq hls
@@ -373,13 +466,12 @@ theorem horz_bodyH : recognizeHorizontal ⟨nm, bodyH ids d t⟩ = ok (horzOf d 
           (t.inputs.length + 1) (t.inputs.length + 1 + t.outputs.length) = ok t.names :=
         rowTexts_ok t.names ids.comp r1 (by rw [len_names])
           (fun j hj => nameRow_out_multi ids t hm1 hj)
-      have hvv : (bodyOver ids t [labelRow ids t, nameRow ids t, valuesRow ids d t] nm).rowTexts (0 + 2)
-          (t.inputs.length + 1) (t.inputs.length + 1 + t.outputs.length) = ok (t.ovals d) :=
-        rowTexts_ok (t.ovals d) ids.outVal r2 (by rw [len_ovals])
-          (fun j hj => valuesRow_out ids d t hj)
+      have hvv := ovals_of_rows ids d t nm hw hids hm1 r1 r2
       have tl := regionText_eq r0 (labelRow_out ids t hm)
       simp only [Nat.add_zero] at tl
-      simp [outputHeaderMulti, hc, hvv, tl, hm1, ← hl]
+      have heq := label_one_region ids t nm hw hids r0
+      simp only [Nat.zero_add] at heq hc hvv
+      simp [outputHeaderMulti, heq, hc, hvv, tl, hm1, ← hl]
 
 end Cases
 
